@@ -947,6 +947,7 @@ pub fn run_c10(tier: &str, seed: u64) -> campaign::CampaignResult {
         wf_problem: Option<String>,
         mutants: Vec<(String, Result<Option<(Class, String)>, String>, Program)>,
         meta: Vec<(Result<usize, String>, Program)>,
+        locality: usize,
         features: bool,
     }
     let outs: Vec<Out> = programs
@@ -954,7 +955,7 @@ pub fn run_c10(tier: &str, seed: u64) -> campaign::CampaignResult {
         .zip(tapes.par_iter())
         .map(|(pc, tape)| {
             let mut t = Tape::new(tape);
-            let mut o = Out { accepted: false, wf_problem: None, mutants: vec![], meta: vec![], features: false };
+            let mut o = Out { accepted: false, wf_problem: None, mutants: vec![], meta: vec![], locality: 0, features: false };
             // 1. a well-formed program is accepted
             match compile_verdict(&pc.source) {
                 Verdict::Accepted => o.accepted = true,
@@ -994,7 +995,40 @@ pub fn run_c10(tier: &str, seed: u64) -> campaign::CampaignResult {
             for _ in 0..3 {
                 let op = OPERATORS[t.pick(OPERATORS.len())];
                 if let Some(m) = mutate(&pc.program, op, &mut t) {
-                    let r = judge_mutant(&m);
+                    let mut r = judge_mutant(&m);
+                    // rule-locality: a defect inside one rule must not be masked by other rules. The
+                    // well-formed rules of the original program (same variable names, same symbols,
+                    // complete matches) are appended as anonymous rules; the mutant must still be rejected
+                    // with a class of the injected defect.
+                    if matches!(r, Ok(Some(_))) && !matches!(op, "delete_used_decl" | "duplicate_decl" | "bad_kind_pred" | "bad_kind_func") {
+                        let mut q = m.program.clone();
+                        for rule in &pc.program.rules {
+                            q.rules.push(Rule { name: None, body: rule.body.clone() });
+                            q.order.push(DeclRef::Rule(q.rules.len() - 1));
+                        }
+                        let src = print::print_with(&q, true).text;
+                        match compile_verdict(&src) {
+                            Verdict::Accepted => {
+                                r = Err(format!("the compiler accepts an ill-formed program (operator {}) once the well-formed rules of the original program are appended: a defect in one rule is masked by other rules", m.op));
+                                o.mutants.push((op.to_string(), r, q));
+                                continue;
+                            }
+                            Verdict::Crashed(e) => {
+                                r = Err(format!("compiler crashed on a mutant with appended well-formed rules ({}): {}", m.op, e));
+                                o.mutants.push((op.to_string(), r, q));
+                                continue;
+                            }
+                            Verdict::Rejected { class, first, .. } => {
+                                if !m.expected.iter().any(|(c, _)| *c == class) {
+                                    r = Err(format!("operator {} injects a defect of class {:?}; with the well-formed rules of the original program appended the compiler reports {:?} (`{}`) instead", m.op, m.expected.iter().map(|(c, _)| *c).collect::<Vec<_>>(), class, first));
+                                    o.mutants.push((op.to_string(), r, q));
+                                    continue;
+                                }
+                                o.locality += 1;
+                            }
+                            Verdict::Timeout => {}
+                        }
+                    }
                     o.mutants.push((op.to_string(), r, m.program));
                 }
             }
@@ -1051,6 +1085,8 @@ pub fn run_c10(tier: &str, seed: u64) -> campaign::CampaignResult {
                 Err(msg) => report(msg, mp, &mut ev, &mut violations),
             }
         }
+        ev.count("rule_locality_comparisons", o.locality as u64);
+        ev.evaluations += o.locality as u64;
         for (r, mp) in &o.meta {
             match r {
                 Ok(n) => {
@@ -1062,7 +1098,7 @@ pub fn run_c10(tier: &str, seed: u64) -> campaign::CampaignResult {
         }
     }
     ev.extra.insert("programs".into(), json!(programs.len()));
-    ev.rule = "well-formed programs from the typed generator must be accepted; single-defect mutants (operators: delete/duplicate declaration, wrong-kind symbol, extra/missing argument, variable of another type, fresh variable or wildcard in then, renamed occurrence, unknown application in then, ! on a non-constructor of enum type, bound variable in `x := t!`, match: dropped case, variable/wildcard pattern, application or bound variable as pattern argument, constructors of two enums) must be rejected with an error whose class and line belong to the defect the operator injects; metamorphic relations (alpha-renaming, declaration permutation, re-layout, unused declaration) must preserve verdict and class; evaluations = compiler verdicts compared; non-trivial = rejected mutants distinct by (operator, error class) plus accepted programs with a branch/match and a nested term".into();
+    ev.rule = "well-formed programs from the typed generator must be accepted; single-defect mutants (operators: delete/duplicate declaration, wrong-kind symbol, extra/missing argument, variable of another type, fresh variable or wildcard in then, renamed occurrence, unknown application in then, ! on a non-constructor of enum type, bound variable in `x := t!`, match: dropped case, variable/wildcard pattern, application or bound variable as pattern argument, constructors of two enums) must be rejected with an error whose class and line belong to the defect the operator injects; metamorphic relations (alpha-renaming, declaration permutation, re-layout, unused declaration) must preserve verdict and class; rule-locality: a rejected rule-level mutant must stay rejected with a class of its defect when the well-formed rules of the original program are appended; evaluations = compiler verdicts compared; non-trivial = rejected mutants distinct by (operator, error class) plus accepted programs with a branch/match and a nested term".into();
     ev.assumptions = vec!["the reference verdict of a mutant is given by construction of its mutation operator (a set of admissible error classes and lines), not by a complete second implementation of the static semantics".into()];
     ev.violations = violations as u64;
     ev.wall_s = start.elapsed().as_secs_f64();
